@@ -217,7 +217,11 @@ func (c *Ctx) checkGoroutineExits(tt []*ssa.Function) {
 				continue
 			}
 			clo := staticCallee(g)
-			if clo == nil || clo.Parent() == nil {
+			if clo == nil || clo.Blocks == nil {
+				continue
+			}
+			if clo.Parent() == nil && (uniqueSite(clo) != ssa.CallInstruction(g) || !samePkg(clo, fn)) {
+				// a named function is a goroutine body in this sense only when this go statement is its single use
 				continue
 			}
 			for _, op := range chanOpsIn(p, clo) {
@@ -260,6 +264,15 @@ func (c *Ctx) checkGoroutineExits(tt []*ssa.Function) {
 							}
 						}
 					}
+					if mc == nil {
+						xforms(op.Chan, func(x ssa.Value) bool {
+							m, ok := x.(*ssa.MakeChan)
+							if ok {
+								mc = m
+							}
+							return ok
+						})
+					}
 					capacity := int64(-1)
 					if mc != nil {
 						capacity, _ = constInt(mc.Size)
@@ -283,7 +296,7 @@ func (c *Ctx) checkGoroutineExits(tt []*ssa.Function) {
 						}
 					}
 					_ = once
-					good := mc != nil && mc.Parent() == clo.Parent() && capacity >= int64(sendsPerPath)
+					good := mc != nil && mc.Parent() == g.Parent() && capacity >= int64(sendsPerPath)
 					c.check(good, rule, key, p.instrPos(op.Instr), fmt.Sprintf("channel made by the enclosing call with capacity %d >= sends before return", capacity),
 						fmt.Sprintf("unconditional send on a channel of capacity %d whose receiver may already have returned: the goroutine (and the carrier and buffer it references) is retained for ever, once per redial", capacity))
 				default:
@@ -489,11 +502,16 @@ func (c *Ctx) checkExpiry() {
 		}
 		c.check(ok, rule, "clientMapInner.Less(i, j) is byAge[i].LastSeen.Before(byAge[j].LastSeen)", p.Pos(less.Pos()), "", "the heap is not ordered oldest-first: removeExpired inspects a record that is not the oldest")
 	}
+	c.checkHeapMethodsPrivate(rule, "common/turbotunnel", "clientMapInner")
 	// sweeper
 	if nm := p.Fn("common/turbotunnel", "NewClientMap"); nm != nil {
 		okSleep, okPass := false, false
 		for _, clo := range nm.AnonFuncs {
-			for _, ci := range callsIn(clo) {
+			for _, d := range deepInstrs(clo, 2, func(in ssa.Instruction) bool {
+				ci, ok := in.(ssa.CallInstruction)
+				return ok && (calleeName(ci) == "time.Sleep" || staticCallee(ci) == re)
+			}) {
+				ci := d.In.(ssa.CallInstruction)
 				switch {
 				case calleeName(ci) == "time.Sleep":
 					if bo, ok := ci.Common().Args[0].(*ssa.BinOp); ok && bo.Op == token.QUO {
